@@ -284,11 +284,19 @@ func (tr *Trans) attachInvariants(res *FuncResult) {
 				auto("jump", fmt.Sprintf("(= %s 0)", lo.jumpExpr))
 			}
 		}
+		innerMod := map[*MVar]bool{}
+		for _, o := range tr.il.Loops {
+			if o != l && len(o.Body) < len(l.Body) && l.Body[o.Head] {
+				for _, v := range o.Modified {
+					innerMod[v] = true
+				}
+			}
+		}
 		for _, v := range l.Modified {
 			if v.Sort == "Int" && strings.HasPrefix(v.Name, "c$") && tr.onlyIncremented(l, v) {
 				auto("mono:"+v.Name, fmt.Sprintf("(>= %s @pre{%s})", cur(v), v.Name))
 			}
-			if strings.HasPrefix(v.Name, "nvisited$") {
+			if strings.HasPrefix(v.Name, "nvisited$") && !innerMod[v] {
 				auto("nvisited", fmt.Sprintf("(>= %s 0)", cur(v)))
 			}
 			if b, ok := tr.rangeIntBound[v]; ok {
